@@ -26,7 +26,8 @@
    loop, so c06_failed_is_noop now holds and the refutation is gone. *)
 Require Import PV.Base.Prelude PV.Base.Utf8 PV.Base.Fnv PV.Base.F64.
 Require Import PV.Model.Proto PV.Model.Desc PV.Model.Value PV.Model.Registry PV.Model.World.
-Require Import PV.Proofs.DescFacts PV.Proofs.C06Facts PV.Proofs.C06More.
+Require Import PV.Proofs.DescFacts PV.Proofs.C06Facts PV.Proofs.C06More PV.Proofs.C06Spec.
+Require PV.Spec.SpecC07 PV.Spec.SpecC06.
 From Coq Require Import Permutation.
 Open Scope N_scope.
 
@@ -208,6 +209,59 @@ Example c06_defect_scenario :
             mkMF s_t s_h COUNTER [mkMetric [] None (Some f_zero) None None None None] ] ].
 Proof. exact defect_scenario_model. Qed.
 
+(* ---- the executable spec written from the property text holds of the model ------------------- *)
+(* spec_c06 (Spec/SpecC06.v) is the oracle evaluated on the IMPLEMENTATION's observations on every
+   run; this is the statement that the model satisfies the property as written, so that the oracle
+   can never raise an alarm when the implementation agrees with the model.  For ALL histories of
+   the domain:
+     in_domain ops    = every operation is one of
+                          OpCounter OpGauge OpHistogram OpCounterVec OpGaugeVec OpHistVec OpCustom OpPulling
+                          OpRegistry OpRegister OpUnregister OpGather
+                          OpInc OpIncBy OpDec OpAdd OpSub OpSet OpGet OpObserve OpReset OpSampleSum OpSampleCount
+                          OpCollect OpDescOf OpDesc OpFqName OpLinearBuckets OpExpBuckets
+                        (29 of the 46 operations; not: vector children OpWith/OpWithMap/OpRemove/OpRemoveMap,
+                        OpClone, OpDrop, local metrics, timers), the constant labels of every Opts value have
+                        distinct keys (they are a HashMap), and no step of the model's run hangs
+                        (a histogram collect that would spin: the spec demands an answer from gather);
+     no_collision ops = ids_exact_on / dims_exact_on / sums_exact_on, decided by computation on the
+                        descriptors that the constructor operations of ops build (c06_no_collision_sound).
+   Every clause of the spec is covered: result kinds of register / unregister over arbitrary
+   collectors and registries (prefix, common labels, clashes), no trace of refused calls, and the
+   gather clause (c06_gather_samples: the gathered families hold exactly the collected samples,
+   prefix and common labels applied - a permutation, proved from the merge / sort structure of
+   gather_families). *)
+Theorem c06_spec_model ops :
+  in_domain ops = true -> no_collision ops = true -> SpecC06.spec_c06 ops (run world0 ops) = true.
+Proof. exact (spec_c06_model ops). Qed.
+Theorem c06_in_domain_meaning ops : in_domain ops = forallb op_ok ops && forallb not_hung (run world0 ops).
+Proof. reflexivity. Qed.
+Theorem c06_no_collision_sound ops :
+  no_collision ops = true ->
+  ids_exact_on (fun d => In d (concat (pool_colls ops))) /\ dims_exact_on (fun d => In d (concat (pool_colls ops)))
+  /\ sums_exact_on (fun ds => In ds (pool_colls ops)).
+Proof. intros H. split; [exact (Hids ops H)|split; [exact (Hdims ops H)|exact (Hsums ops H)]]. Qed.
+Theorem c06_gather_samples p l collected :
+  Permutation (SpecC07.expected_samples p l collected)
+              (SpecC07.flatten (gather_families p (match l with Some l0 => Some (amap_of l0) | None => None end) collected)).
+Proof. exact (gather_samples p l collected). Qed.
+(* the corpus scenarios of tools/p_C06.py (three variants of the repaired defect b8e028c) are
+   inside the domain and collision free, hence satisfy the spec on the model ... *)
+Example c06_corpus_in_domain :
+  SpecC06.spec_c06 corpus_defect_already (run world0 corpus_defect_already) = true
+  /\ SpecC06.spec_c06 corpus_defect_msg (run world0 corpus_defect_msg) = true
+  /\ SpecC06.spec_c06 corpus_defect_dup (run world0 corpus_defect_dup) = true.
+Proof.
+  pose proof corpus_in_domain as H. rewrite !andb_true_iff in H. destruct H as [[[A1 A2] [B1 B2]] [C1 C2]].
+  split; [|split]; apply spec_c06_model; assumption.
+Qed.
+(* ... the collision witness is inside the domain but not collision free: there the spec fails on
+   the model's own run, and the failure is in the known class *)
+Example c06_collision_witness_outside :
+  in_domain corpus_collision = true /\ no_collision corpus_collision = false
+  /\ SpecC06.spec_c06 corpus_collision (run world0 corpus_collision) = false
+  /\ SpecC06.known_c06 corpus_collision (run world0 corpus_collision) = true.
+Proof. exact corpus_collision_outside. Qed.
+
 Check @c06_register_iff : forall (C : Type) (P : Desc -> Prop) (CP : list Desc -> Prop) (st : sstate C) (r : regcore C) ds c,
   (forall ds d, CP ds -> In d ds -> P d) -> ids_exact_on P -> dims_exact_on P -> sums_exact_on CP ->
   reg_abs st r -> st_in P CP st -> CP ds ->
@@ -254,3 +308,10 @@ Print Assumptions c06_hypotheses_decidable.
 Print Assumptions c06_refuted_collision.
 Print Assumptions c06_hypotheses_satisfiable.
 Print Assumptions c06_defect_scenario.
+Check c06_spec_model : forall ops, in_domain ops = true -> no_collision ops = true -> SpecC06.spec_c06 ops (run world0 ops) = true.
+Print Assumptions c06_spec_model.
+Print Assumptions c06_in_domain_meaning.
+Print Assumptions c06_no_collision_sound.
+Print Assumptions c06_gather_samples.
+Print Assumptions c06_corpus_in_domain.
+Print Assumptions c06_collision_witness_outside.
